@@ -138,6 +138,44 @@ impl<'b, 'tx> Cursor<'b, 'tx> {
             });
         }
     }
+
+    // Moves to the next position in key order, descending to the first entry of the next
+    // leaf when the current one is used up. Returns false when there is nothing further.
+    fn advance(&mut self) -> bool {
+        loop {
+            {
+                let b = self.bucket.borrow();
+                if b.deleted {
+                    panic!("Cannot get data from a deleted bucket.");
+                }
+                let elem = self.stack.last_mut().unwrap();
+                let page_node = b.page_node(elem.id);
+                if elem.index + 1 >= page_node.len() {
+                    if self.stack.len() == 1 {
+                        return false;
+                    }
+                    self.stack.pop();
+                    continue;
+                } else {
+                    elem.index += 1;
+                }
+            }
+            self.seek_first();
+            return true;
+        }
+    }
+
+    // True when the cursor rests on a leaf that has no entry at its position.
+    fn on_emptied_leaf(&self) -> bool {
+        let b = self.bucket.borrow();
+        match self.stack.last() {
+            Some(e) => {
+                let n = b.page_node(e.id);
+                n.leaf() && e.index >= n.len()
+            }
+            None => false,
+        }
+    }
 }
 
 // function that searches the bucket for a given key
@@ -177,30 +215,17 @@ impl<'b, 'tx> Iterator for Cursor<'b, 'tx> {
     fn next(&mut self) -> Option<Self::Item> {
         if self.stack.is_empty() {
             self.seek_first();
-        } else if self.next_called {
-            loop {
-                {
-                    let b = self.bucket.borrow();
-                    if b.deleted {
-                        panic!("Cannot get data from a deleted bucket.");
-                    }
-                    let elem = self.stack.last_mut().unwrap();
-                    let page_node = b.page_node(elem.id);
-                    if elem.index + 1 >= page_node.len() {
-                        if self.stack.len() == 1 {
-                            return None;
-                        }
-                        self.stack.pop();
-                        continue;
-                    } else {
-                        elem.index += 1;
-                    }
-                }
-                self.seek_first();
-                break;
-            }
+        } else if self.next_called && !self.advance() {
+            return None;
         }
         self.next_called = true;
+        // A leaf whose entries were all deleted earlier in this transaction holds nothing
+        // to return, but the leaves after it may: keep going instead of ending the iteration.
+        while self.on_emptied_leaf() {
+            if !self.advance() {
+                return None;
+            }
+        }
         self.current()
     }
 }
